@@ -477,7 +477,7 @@ Lemma good_call id ck c l : call_ok ck = true ->
   good (call_error id ck c) l.
 Proof.
   intros Hok Hc Hs.
-  destruct ck as [k f| | |rt f|k|k|retry q| |code| | |n|n]; cbn [call_error].
+  destruct ck as [k f| | |rt f|k|k|retry q| |code| | |n|n|k p2 n]; cbn [call_error].
   - (* CkReq *)
     destruct k, f; cbn [call_ok] in Hok; try discriminate;
       cbn [uses_cause call_sentinel] in *;
@@ -517,6 +517,11 @@ Proof.
     + specialize (Hs eq_refl). subst l. apply good_wrap, good_sent.
     + specialize (Hc eq_refl). destruct (n =? 1); [apply good_wrap; exact Hc|].
       unfold ping_impl. cbn -[wrap_error]. apply good_wrap. exact Hc.
+  - (* CkRetryRetx *)
+    specialize (Hs eq_refl). subst l. cbn [call_sentinel call_error].
+    cbn [call_ok] in Hok. apply andb_true_iff in Hok as [Hn Hk].
+    apply orb_true_iff in Hn as [Hn|Hn]; apply N.eqb_eq in Hn; subst n;
+      destruct k, p2; cbn in Hk; try discriminate; split; reflexivity.
 Qed.
 
 Lemma good_build d : shaped d = true -> good (build d) (spec_leaf d).
@@ -581,7 +586,7 @@ Theorem ctx_error_found id ck ce : ctx_call ck = true ->
 Proof.
   intros H. rewrite (errors_is_good _ (Some ce)).
   - cbn. rewrite sentinel_eqb_refl. reflexivity.
-  - destruct ck as [k f| | |rt f|k|k|retry q| |code| | |n|n]; cbn [ctx_call] in H; try discriminate.
+  - destruct ck as [k f| | |rt f|k|k|retry q| |code| | |n|n|k p2 n]; cbn [ctx_call] in H; try discriminate.
     + apply andb_true_iff in H as [H1 H2]. apply good_call; [exact H1 | intros _; apply good_sent |].
       destruct f; cbn in H2 |- *; discriminate.
     + destruct f; try discriminate. apply good_call; [reflexivity | intros _; apply good_sent | cbn; discriminate].
@@ -1126,6 +1131,51 @@ Proof.
     destruct f; cbn [script_of sc_w1 sc_s1 step_fail snd] in *; try contradiction; try discriminate; reflexivity.
 Qed.
 
+(* ---------- RequestTimeoutError on the retransmission path ---------- *)
+(* ... and when the ResponseTimeout expires on a RETRANSMISSION (RetryClient.Retry running the closure
+   queued by queueRetry, whose context is requestContext): any number of consecutive timed-out
+   retransmissions of any handle the library produces *)
+Lemma retx_step eid ceid h : handle_valid h = true ->
+  exists h', snd (run_handle eid conn_client 1 h (script_of FCtx1 (retx_ctx_err ceid)))
+             = Ret (EWithRetry eid (S eid) (retx_ctx_err ceid) h') /\ handle_valid h' = true.
+Proof.
+  intros Hv. destruct h as [m|m|subs|ts]; cbn [handle_valid run_handle] in *.
+  - apply andb_true_iff in Hv as [Hq Hi]. apply negb_true_iff in Hi.
+    unfold publish_impl. cbn [cl_connected conn_client negb].
+    assert (A : assign_id m 1 = m) by (apply assign_id_nonzero; lia). rewrite A.
+    cbn [set_dup m_qos m_id script_of sc_w1 sc_s1].
+    assert (Hq2 : 2 <? m_qos m = false) by lia. rewrite Hq2.
+    destruct (m_qos m =? 1) eqn:Q1.
+    + eexists. split; [reflexivity|]. cbn [handle_valid set_dup m_qos m_id]. rewrite Q1, Hi. reflexivity.
+    + assert (Q2 : m_qos m =? 2 = true) by lia. rewrite Q2.
+      eexists. split; [reflexivity|]. cbn [handle_valid set_dup m_qos m_id]. rewrite Q1, Q2, Hi. reflexivity.
+  - eexists. split; [reflexivity | reflexivity].
+  - rewrite (subscribe_one_step eid conn_client 1 subs _ eq_refl Hv).
+    eexists. split; [reflexivity | exact Hv].
+  - eexists. split; [reflexivity | reflexivity].
+Qed.
+
+Theorem timeout_retx_rounds n : forall eid ceid h, handle_valid h = true ->
+  let e := retx_rounds eid ceid h n in
+  errors_as AsReqTimeout e = true /\ errors_is e (ESent SDeadlineExceeded) = RTrue /\ implements_retry e = true.
+Proof.
+  induction n as [|n IH]; intros eid ceid h Hv; cbn zeta; cbn [retx_rounds];
+    destruct (retx_step eid ceid h Hv) as [h' [E Hv']]; rewrite E.
+  - repeat split; reflexivity.
+  - cbn [retry_handle]. apply IH. exact Hv'.
+Qed.
+
+(* the scenarios of the correspondence check: request interrupted once by the peer closing, then one
+   or two timed-out retransmissions through SetClient + Connect + Retry *)
+Theorem timeout_retx_calls id k p2 n : call_ok (CkRetryRetx k p2 n) = true ->
+  let e := call_error id (CkRetryRetx k p2 n) ENil in
+  errors_as AsReqTimeout e = true /\ errors_is e (ESent SDeadlineExceeded) = RTrue /\ implements_retry e = true.
+Proof.
+  intros Hok. cbn [call_ok] in Hok. apply andb_true_iff in Hok as [Hn Hk].
+  apply orb_true_iff in Hn as [Hn|Hn]; apply N.eqb_eq in Hn; subst n;
+    destruct k, p2; cbn in Hk; try discriminate; repeat split; reflexivity.
+Qed.
+
 (* ---------- non-vacuity: concrete inputs satisfying the hypotheses ---------- *)
 Definition ex_msg : message :=
   {| m_topic := [97; 47; 98]; m_id := 0; m_qos := 2; m_retain := true; m_dup := false; m_payload := [1; 2; 3] |}.
@@ -1191,6 +1241,10 @@ Example ex_retry_keeps_cause_hyps :
   req_ok (RqSubscribe [([97], 1)]) = true /\ step_applies (RqSubscribe [([97], 1)]) FCtx1 = true
   /\ EFmt 1 (ESent SEOF) <> ENil /\ EFmt 1 (ESent SEOF) <> ESent SEOF.
 Proof. repeat split; try reflexivity; discriminate. Qed.
+
+Example ex_handle_valid : handle_valid (HRetryPublish (set_id ex_msg 7)) = true
+  /\ call_ok (CkRetryRetx KPub2 true 2) = true /\ call_ok (CkRetryRetx KSub false 1) = true.
+Proof. repeat split; reflexivity. Qed.
 
 Example ex_ctx_call : ctx_call (CkRetryPing true FCtx1) = true /\ ctx_call (CkReq KPub2 FCtx2) = true /\ ctx_call (CkReq KConnect FCtx1) = true.
 Proof. repeat split; reflexivity. Qed.
